@@ -28,7 +28,7 @@ Definition outcome_eqb : outcome -> outcome -> bool := list_eqb (list_eqb pcres_
 Definition body_log (log : list logline) (b : nat) : list (nat * result) :=
   flat_map (fun l => match l with
                      | LOp b' pc r => if Nat.eqb b b' then [(pc, r)] else []
-                     | LDrop _ => []
+                     | _ => []
                      end) log.
 
 (* the outcome of one iteration of L *)
